@@ -192,7 +192,8 @@ fn builtin_case(c: &Callables, max_arity: u32, n: u64) -> String {
         let w = which - nf - nt - nm;
         let f = &c.functions[w as usize];
         match f.as_str() {
-            "namespace" => format!("{{% set ns = namespace({}) %}}{{{{ ns }}}}{{% set ns.a = ns %}}{{{{ ns.a.a }}}}", if args.is_empty() { "".to_string() } else { format!("a={}", args.split(", ").next().unwrap()) }),
+            // (the self-referential namespace lives in the depth family as `namespace_self`)
+            "namespace" => format!("{{% set ns = namespace({}) %}}{{{{ ns }}}}{{% set ns.b = [ns.a] %}}{{{{ ns.b }}}}", if args.is_empty() { "".to_string() } else { format!("a={}", args.split(", ").next().unwrap()) }),
             _ => format!("{{{{ {}({}) }}}}", f, args),
         }
     }
